@@ -12,6 +12,10 @@ Supported Python: names / attributes / subscripts / `len(self)` bound to Lean va
 names defined by a single assignment in the same function (inlined); + - * / unary minus; `**` with a natural
 number exponent variable; int / float literals that are exact in binary (1.0, 0.0, 2 ...); the identity wrappers
 `np_scalar(x, dtype=...)`, `np.asarray(x, ...)`, `float(x)`; a one-element list / `np.array([x])` around the value.
+A second kind of specification (`kind="straightline"`) executes a whole function body symbolically, statement by
+statement (assignments and augmented assignments to names and `self` attributes, typed `Nat` / `Rat`, `np.sqrt`
+as an uninterpreted function `sq`), and emits the final value of the listed outputs -- used for the update rules
+of `AdamOpt.step` and `GradientAscentOpt.step` (arrays are read coordinate-wise).
 Anything else makes the translation of that formula fail; the generated definition is then the constant `0`
 with the reason in a comment, which no equality theorem survives.
 """
@@ -52,6 +56,29 @@ SPECS = [
     dict(name="objMean", file="ribs/archives/_archive_base.py", func="ArchiveBase._stats_update",
          call="ArchiveStats", kw="obj_mean",
          env={"self._objective_sum": "s", "len(self)": "n"}, vars=["s", "n"], nat=[]),
+]
+
+TYPED_SPECS = [
+    # one assignment, natural-number arithmetic: `int(a * b / c)` of naturals is their floor division
+    dict(name="boundaryRank", file="ribs/archives/_sliding_boundaries_archive.py", func="SlidingBoundariesArchive._remap",
+         assign="sample_idx", nth=0,
+         inputs={"j": ("j", "Nat"), "self._buffer.size": ("t", "Nat"), "self.dims[i]": ("d", "Nat")},
+         vars=[("j", "Nat"), ("t", "Nat"), ("d", "Nat")], result="Nat"),
+]
+
+SL_SPECS = [
+    dict(name="ascent", file="ribs/emitters/opt/_gradient_ascent_opt.py", func="GradientAscentOpt.step",
+         inputs={"self._lr": ("lr", "Rat"), "gradient": ("g", "Rat"), "self._theta": ("theta", "Rat")},
+         vars=[("lr", "Rat"), ("theta", "Rat"), ("g", "Rat")],
+         outputs={"Theta": "self._theta"}),
+    dict(name="adam", file="ribs/emitters/opt/_adam_opt.py", func="AdamOpt.step",
+         inputs={"self._lr": ("lr", "Rat"), "self._beta1": ("b1", "Rat"), "self._beta2": ("b2", "Rat"),
+                 "self._epsilon": ("eps", "Rat"), "self._l2_coeff": ("l2", "Rat"), "gradient": ("g", "Rat"),
+                 "self._theta": ("theta", "Rat"), "self._m": ("m", "Rat"), "self._v": ("v", "Rat"),
+                 "self._t": ("t", "Nat")},
+         vars=[("sq", "Rat → Rat"), ("lr", "Rat"), ("b1", "Rat"), ("b2", "Rat"), ("eps", "Rat"), ("l2", "Rat"),
+               ("theta", "Rat"), ("m", "Rat"), ("v", "Rat"), ("t", "Nat"), ("g", "Rat")],
+         outputs={"Theta": "self._theta", "M": "self._m", "V": "self._v", "T": "self._t"}),
 ]
 
 
@@ -167,6 +194,82 @@ def translate_one(repo, spec):
     return to_lean(node, spec, assigns), node.lineno, ast.unparse(node)
 
 
+def sl_expr(node, sym):
+    """(lean text, type) of an expression under the symbolic state `sym` (text -> (lean, type))."""
+    text = ast.unparse(node)
+    if text in sym:
+        return sym[text]
+    if isinstance(node, ast.Constant):
+        v = node.value
+        if isinstance(v, int) and not isinstance(v, bool) and v >= 0:
+            return str(v), "Lit"
+        return exact_literal(v), "Rat"
+    if isinstance(node, ast.UnaryOp) and isinstance(node.op, ast.USub):
+        e, t = sl_expr(node.operand, sym)
+        return f"(-{rat(e, t)})", "Rat"
+    if isinstance(node, ast.BinOp):
+        if isinstance(node.op, ast.Pow):
+            b, bt = sl_expr(node.left, sym)
+            e, et = sl_expr(node.right, sym)
+            if et not in ("Nat", "Lit"):
+                raise Untranslatable(f"exponent {ast.unparse(node.right)} is not a natural number")
+            return f"({rat(b, bt)} ^ {e})", "Rat"
+        ops = {ast.Add: "+", ast.Sub: "-", ast.Mult: "*", ast.Div: "/"}
+        if type(node.op) not in ops:
+            raise Untranslatable(f"operator {type(node.op).__name__}")
+        a, at = sl_expr(node.left, sym)
+        b, bt = sl_expr(node.right, sym)
+        if isinstance(node.op, (ast.Add, ast.Mult)) and {at, bt} <= {"Nat", "Lit"} and "Nat" in (at, bt):
+            return f"({a} {ops[type(node.op)]} {b})", "Nat"
+        return f"({rat(a, at)} {ops[type(node.op)]} {rat(b, bt)})", "Rat"
+    if isinstance(node, ast.Call):
+        fn = call_name(node.func)
+        if fn in IDENTITY_CALLS and node.args:
+            return sl_expr(node.args[0], sym)
+        if fn == "int" and len(node.args) == 1 and isinstance(node.args[0], ast.BinOp) \
+                and isinstance(node.args[0].op, ast.Div):
+            a, at = sl_expr(node.args[0].left, sym)
+            b, bt = sl_expr(node.args[0].right, sym)
+            if {at, bt} <= {"Nat", "Lit"}:
+                return f"({a} / {b})", "Nat"          # truncation of a quotient of naturals = floor division
+            raise Untranslatable("int() of a quotient that is not over naturals")
+        if fn == "np.sqrt" and len(node.args) == 1:
+            e, t = sl_expr(node.args[0], sym)
+            return f"(sq {rat(e, t)})", "Rat"
+        raise Untranslatable(f"call {fn}(...)")
+    raise Untranslatable(f"expression {text[:60]}")
+
+
+def rat(e, t):
+    return f"(({e} : Nat) : Rat)" if t == "Nat" else (f"({e} : Rat)" if t == "Lit" else e)
+
+
+def straightline(repo, spec):
+    """Symbolic execution of a straight-line function body; returns {output name: (lean, type)} and a source digest."""
+    tree = ast.parse(open(os.path.join(repo, spec["file"])).read())
+    func = find_function(tree, spec["func"])
+    sym = {k: v for k, v in spec["inputs"].items()}
+    src = []
+    for st in func.body:
+        if isinstance(st, ast.Expr) and isinstance(st.value, ast.Constant):
+            continue                                                    # docstring
+        if isinstance(st, ast.Assign) and len(st.targets) == 1 and isinstance(st.targets[0], (ast.Name, ast.Attribute)):
+            sym[ast.unparse(st.targets[0])] = sl_expr(st.value, sym)
+        elif isinstance(st, ast.AugAssign) and isinstance(st.target, (ast.Name, ast.Attribute)):
+            sym[ast.unparse(st.target)] = sl_expr(ast.BinOp(left=st.target, op=st.op, right=st.value), sym)
+        elif isinstance(st, ast.Return) and st.value is None:
+            break
+        else:
+            raise Untranslatable(f"statement {type(st).__name__} at line {st.lineno}")
+        src.append(" ".join(ast.unparse(st).split()))
+    out = {}
+    for oname, target in spec["outputs"].items():
+        if target not in sym:
+            raise Untranslatable(f"{target} is never assigned")
+        out[oname] = sym[target]
+    return out, func.lineno, "; ".join(src)
+
+
 def translate(repo, out_path):
     """Regenerate out_path from the source tree `repo`.  Returns (records, changed)."""
     recs = []
@@ -188,6 +291,44 @@ def translate(repo, out_path):
         lines.append("")
         recs.append({"name": spec["name"], "file": spec["file"], "func": spec["func"], "line": line, "ok": ok,
                      "why": why, "python": src1[:200], "lean": expr})
+    for spec in TYPED_SPECS:
+        binder = " ".join(f"({v} : {t})" for v, t in spec["vars"])
+        try:
+            tree = ast.parse(open(os.path.join(repo, spec["file"])).read())
+            func = find_function(tree, spec["func"])
+            vals = assignments(func).get(spec["assign"], [])
+            if len(vals) <= spec["nth"]:
+                raise Untranslatable(f"no assignment to {spec['assign']}")
+            node = vals[spec["nth"]]
+            e, t = sl_expr(node, dict(spec["inputs"]))
+            if (t == "Nat") != (spec["result"] == "Nat"):
+                raise Untranslatable(f"result type {t}, expected {spec['result']}")
+            expr, line, src, ok, why = (e if t == "Nat" else rat(e, t)), node.lineno, ast.unparse(node), True, ""
+        except (Untranslatable, SyntaxError, OSError, StopIteration) as ex:
+            expr, line, src, ok, why = "0", 0, "", False, str(ex)
+        src1 = " ".join(src.split())
+        lines.append(f"/-- `{spec['file']}:{spec['func']}`" + (f" line {line}: `{src1[:160]}`" if ok else
+                                                                f" -- TRANSLATION FAILED: {why}") + " -/")
+        lines.append(f"def {spec['name']} {binder} : {spec['result']} :=\n  {expr}")
+        lines.append("")
+        recs.append({"name": spec["name"], "file": spec["file"], "func": spec["func"], "line": line, "ok": ok,
+                     "why": why, "python": src1[:200], "lean": expr})
+    for spec in SL_SPECS:
+        binder = " ".join(f"({v} : {t})" for v, t in spec["vars"])
+        try:
+            outs, line, src = straightline(repo, spec)
+            ok, why = True, ""
+        except (Untranslatable, SyntaxError, OSError, StopIteration) as e:
+            outs, line, src, ok, why = {o: ("0", "Lit") for o in spec["outputs"]}, 0, "", False, str(e)
+        lines.append(f"/-- `{spec['file']}:{spec['func']}`" + (f" line {line}, straight-line body: `{src[:400]}`" if ok
+                                                                else f" -- TRANSLATION FAILED: {why}") + " -/")
+        for oname, (e, t) in outs.items():
+            ty = "Nat" if t == "Nat" else "Rat"
+            body = e if t == "Nat" else rat(e, t)
+            lines.append(f"def {spec['name']}{oname} {binder} : {ty} :=\n  {body}")
+        lines.append("")
+        recs.append({"name": spec["name"], "file": spec["file"], "func": spec["func"], "line": line, "ok": ok,
+                     "why": why, "python": src[:300], "lean": "; ".join(f"{o} := {e}" for o, (e, _) in outs.items())})
     lines.append("end Pyribs.GenF")
     text = "\n".join(lines) + "\n"
     old = open(out_path).read() if os.path.exists(out_path) else None
